@@ -40,7 +40,7 @@ def writers():
 
 def plan(tier, seed):
     cases = []
-    nrep = 3 if tier == "quick" else 60
+    nrep = 3 if tier == "quick" else 150
     for name, mod in sorted(writers().items()):
         for klass in mod.CLASSES:
             if klass in getattr(mod, "NOT_ASSERTED", {}):
